@@ -143,7 +143,10 @@ Fixpoint fix_val (bad : list path) (p : path) (v : val) {struct v} : val * list 
                let p' := p ++ [k] in
                let '(x', e1) :=
                  match x with
-                 | VList _ => if mem_path p' bad then (VNull, [LErr p' EResolver]) else fix_val bad p' x
+                 | VList _ =>
+                     (* the started items ran: what they recorded (incl. inner lists of this kind) stays *)
+                     let '(x1, e0) := fix_val bad p' x in
+                     if mem_path p' bad then (VNull, e0 ++ [LErr p' EResolver]) else (x1, e0)
                  | _ => fix_val bad p' x
                  end in
                let '(r', e2) := go r in ((k, x') :: r', e1 ++ e2)
